@@ -82,6 +82,8 @@ type Cluster struct {
 	CmpDiffs  int
 	rtoDraw   func(id uint64, et int) int
 	RTOLog    []int
+	Kinds     map[string]int // what the recorded events exercised (for the evidence files)
+	lastRole  map[uint64]string
 	quietFrom int // number of recorded steps when the quiet suffix started
 }
 
@@ -248,6 +250,7 @@ func (c *Cluster) emit(ev *Event, n *AppNode) {
 	}
 	ev.NetSz = len(c.Net)
 	ev.Det = true
+	c.count(ev)
 	c.Events++
 	c.LastEv = ev
 	if c.Cmp != nil {
@@ -260,6 +263,76 @@ func (c *Cluster) emit(ev *Event, n *AppNode) {
 	if c.enc != nil {
 		if err := c.enc.Encode(ev); err != nil {
 			panic(err)
+		}
+	}
+}
+
+// count records which situations the recorded events exercised.
+func (c *Cluster) count(ev *Event) {
+	if c.Kinds == nil {
+		c.Kinds = map[string]int{}
+		c.lastRole = map[uint64]string{}
+	}
+	k := c.Kinds
+	switch ev.Act {
+	case "Deliver":
+		if ev.A.Msg != nil {
+			k["deliver:"+ev.A.Msg.Type]++
+			if ev.A.Keep {
+				k["deliver:duplicate"]++
+			}
+			if ev.A.Msg.Type == "Snap" && ev.N.USnap.Has && ev.N.USnap.Index == ev.A.Msg.Snap.Index {
+				k["snapshot:installed"]++
+			}
+		}
+	case "Ready":
+		if ev.Rd != nil {
+			if len(ev.Rd.Committed) > 0 {
+				k["ready:committed-entries"]++
+			}
+			if ev.Rd.Snap.Has {
+				k["ready:snapshot"]++
+			}
+			if len(ev.Rd.ReadStates) > 0 {
+				k["ready:read-states"]++
+			}
+			if ev.Rd.HS.Has {
+				k["ready:hardstate"]++
+			}
+			if !ev.Rd.MustSync && (ev.Rd.HS.Has || len(ev.Rd.Ents) > 0) {
+				k["ready:no-fsync-needed"]++
+			}
+		}
+	case "Apply", "ApplyThread":
+		for _, e := range ev.A.Ents {
+			if e.Type != "N" {
+				k["apply:conf-change"]++
+			}
+		}
+	case "Propose", "ProposeConfChange", "ProposeBatch":
+		k["propose:"+ev.Ret]++
+	case "Crash", "CrashInAppend":
+		k["crash"]++
+		if ev.P.SD != nil || (ev.Act == "Crash" && ev.A.Ok) {
+			k["crash:with-unsynced-or-loss"]++
+		}
+	case "Restart":
+		k["restart"]++
+	}
+	if ev.Panic != "" {
+		k["panic"]++
+	}
+	if ev.Node != 0 {
+		if ev.N.Up && ev.N.Role == "L" && c.lastRole[ev.Node] != "L" {
+			k["became-leader"]++
+		}
+		if ev.N.Up && len(ev.N.Cfg.Outgoing) > 0 {
+			k["event-in-joint-config"]++
+		}
+		if ev.N.Up {
+			c.lastRole[ev.Node] = ev.N.Role
+		} else {
+			c.lastRole[ev.Node] = ""
 		}
 	}
 }
